@@ -310,6 +310,8 @@ static void emit_config(vh::Trace& tr, const Sys& s, const Cfg& c, const Matrix&
 // scales of the fixed-point records
 struct Scales { int kl, kg, kd; };
 
+// kind "nosetup": reconstruct is called WITHOUT a set_up before it (documented as illegal); no SetUp line is written then
+static bool g_skip_setup = false;
 // one set_up + reconstruct of sub-iterations start..last on engine e from image init; kind as documented in Trace_OSSPS.tla
 static bool run_once(vh::Trace& tr, const Sys& s, Engine& e, const Cfg& c, const std::string& kind, int from, int start, int last, const Img& init,
                      const Scales& sc, bool twice_setup, bool ref) {
@@ -330,7 +332,9 @@ static bool run_once(vh::Trace& tr, const Sys& s, Engine& e, const Cfg& c, const
   std::string msg;
   bool ok = false;
   r.hook = nullptr;
-  bool err = vh::threw([&] {
+  bool err = false;
+  if (!g_skip_setup) {
+  err = vh::threw([&] {
     ok = r.set_up(target) == Succeeded::yes;
     if (ok && twice_setup) ok = r.set_up(target) == Succeeded::yes;
   }, &msg);
@@ -358,6 +362,7 @@ static bool run_once(vh::Trace& tr, const Sys& s, Engine& e, const Cfg& c, const
     tr.emit(j);
   }
   if (err || !ok) return false;
+  }
   // ---- reconstruct
   int steps = 0;
   r.hook = [&](int phase, const Img& cur) {
@@ -614,6 +619,24 @@ static bool exact_instance(vh::Trace& tr, const Sys& s, vh::Rng& rng, long i, co
   // every fourth object is set up and used once more (OSSPS modified its precomputed denominator): same exact step again
   if (rng.range(0, 3) == 0) run_once(tr, s, e, c, "single", k - 1, k, k, *image_from(s, lf), sc, false, false);
   remove_outputs(e, k);
+  // scale clause (no prior): data, additive term, image and upper bound times 2^j - the same sub-iteration on a fresh object
+  if (!c.prior && rng.coin()) {
+    const int j = rng.range(1, 2);
+    Cfg c2 = c;
+    c2.id = c.id + 1000000;
+    if (!c2.uInf) c2.uN <<= j;
+    ExactData d2 = d;
+    std::vector<float> yf2(nb), af2(nb), lf2(nv);
+    for (int b = 0; b < nb; ++b) { d2.yq[b] <<= j; d2.a[b] <<= j; yf2[b] = d2.yq[b] / 4.F; af2[b] = (float)d2.a[b]; }
+    for (int v = 0; v < nv; ++v) lf2[v] = (float)(d.lam[v] << j);
+    tr.emit(vh::Json("ScaleOf").num("cfg", c.id).num("by", j));
+    emit_config(tr, s, c2, m);
+    tr.emit(vh::Json("Data").num("cfg", c2.id).arr("yq", d2.yq).arr("a", d2.a));
+    Engine e2;
+    make_engine(e2, s, m, yf2, af2, c.additive, scratch);
+    if (!vh::threw([&] { configure(e2, s, c2, scratch); }, &msg)) run_once(tr, s, e2, c2, "single", k - 1, k, k, *image_from(s, lf2), sc, false, false);
+    remove_outputs(e2, k);
+  }
   return true;
 }
 
@@ -722,6 +745,8 @@ static void runs_group(vh::Trace& tr, const Sys& s, vh::Rng& rng, long& cfgid, i
   // ... and resumed on the used object from one of its own saved images
   { const int k = rng.range(1, K - 1 > 0 ? K - 1 : 1);
     if (k < K && saved[k]) run_once(tr, s, ref, c, "resume", k, k + 1, K, *saved[k], sc, false, false); }
+  // ... and reconstruct called once more WITHOUT set_up ("you have to call set_up() before running a new reconstruction")
+  if (rng.coin()) { g_skip_setup = true; run_once(tr, s, ref, c, "nosetup", 0, 1, K, *init_im, sc, false, false); g_skip_setup = false; }
   remove_outputs(ref, K);
   // ---- an object with another history: first a complete reconstruction with ONE setting different (changed back through the
   // setters / the parser afterwards) or under an altogether different configuration, then this configuration
